@@ -13,6 +13,9 @@ import (
 	"github.com/influxdata/kapacitor/udf/agent"
 )
 
+// maxBatchSizeHint bounds the capacity allocated up front for a batch announced by the UDF process.
+const maxBatchSizeHint = 1 << 16
+
 var ErrServerStopped = errors.New("server already stopped")
 
 type Diagnostic interface {
@@ -497,7 +500,10 @@ func (s *Server) writeData() error {
 }
 
 func (s *Server) writePoint(p edge.PointMessage) error {
-	strs, floats, ints, bools := s.fieldsToTypedMaps(p.Fields())
+	strs, floats, ints, bools, err := s.fieldsToTypedMaps(p.Fields())
+	if err != nil {
+		return err
+	}
 	udfPoint := &agent.Point{
 		Time:            p.Time().UnixNano(),
 		Name:            p.Name(),
@@ -523,6 +529,7 @@ func (s *Server) fieldsToTypedMaps(fields models.Fields) (
 	floats map[string]float64,
 	ints map[string]int64,
 	bools map[string]bool,
+	err error,
 ) {
 	for k, v := range fields {
 		switch value := v.(type) {
@@ -547,7 +554,8 @@ func (s *Server) fieldsToTypedMaps(fields models.Fields) (
 			}
 			bools[k] = value
 		default:
-			panic("unsupported field value type")
+			err = fmt.Errorf("unsupported type %T of field %q, a UDF accepts string, float, integer and boolean fields", v, k)
+			return
 		}
 	}
 	return
@@ -590,7 +598,10 @@ func (s *Server) writeBeginBatch(begin edge.BeginBatchMessage) error {
 }
 
 func (s *Server) writeBatchPoint(group models.GroupID, bp edge.BatchPointMessage) error {
-	strs, floats, ints, bools := s.fieldsToTypedMaps(bp.Fields())
+	strs, floats, ints, bools, err := s.fieldsToTypedMaps(bp.Fields())
+	if err != nil {
+		return err
+	}
 	req := &agent.Request{
 		Message: &agent.Request_Point{
 			Point: &agent.Point{
@@ -697,8 +708,16 @@ func (s *Server) handleResponse(response *agent.Response) error {
 		s.diag.Error("received error message", errors.New(msg.Error.Error))
 		return errors.New(msg.Error.Error)
 	case *agent.Response_Begin:
+		// The size is only a capacity hint and it comes from the UDF process: do not trust it.
+		size := msg.Begin.Size
+		if size < 0 {
+			return fmt.Errorf("received begin batch message with negative size %d", size)
+		}
+		if size > maxBatchSizeHint {
+			size = maxBatchSizeHint
+		}
 		s.begin = msg.Begin
-		s.points = make([]edge.BatchPointMessage, 0, msg.Begin.Size)
+		s.points = make([]edge.BatchPointMessage, 0, size)
 	case *agent.Response_Point:
 		if s.points != nil {
 			bp := edge.NewBatchPointMessage(
@@ -734,6 +753,9 @@ func (s *Server) handleResponse(response *agent.Response) error {
 			}
 		}
 	case *agent.Response_End:
+		if s.begin == nil {
+			return errors.New("received end batch message without a begin batch message")
+		}
 		begin := edge.NewBeginBatchMessage(
 			msg.End.Name,
 			msg.End.Tags,
@@ -754,7 +776,7 @@ func (s *Server) handleResponse(response *agent.Response) error {
 		s.begin = nil
 		s.points = nil
 	default:
-		panic(fmt.Sprintf("unexpected response message %T", msg))
+		return fmt.Errorf("unexpected response message %T", msg)
 	}
 	return nil
 }
